@@ -17,7 +17,7 @@ CLAIMS = {
    design="6/C02"),
  "C06": dict(
    text="Contract proof of the resolution order: QuickMatch is proved against the table predicate tm (cache-independent, via the invariant that cache entries only exist for matching (method,path) pairs) to resolve direct match, then HEAD->GET, then the METHOD/* fallback route when enabled, then method-not-allowed with the allowed list being exactly the other supported methods whose tables match (every map iteration order covered by a bijection model of range), else not found; with InterceptAll the lookup path is the normalised intercept path (defect fixed). handleHTTPRequest is proved to install the NotAllowed/NotFound chains (or the internal defaults) accordingly.",
-   note=TRUST + "internal405Handler/internal404Handler bodies (Allow header sorting, status) are not under contract.",
+   note=TRUST + "internal405Handler/internal404Handler bodies (Allow header sorting, status) are not under contract: bounded stand-in bounded/fallback (labelled bounded) runs the whole decision list through ServeHTTP.",
    design="6/C06"),
  "C07": dict(
    text="Contract proof of the cache discipline: a cache hit returns exactly the stored view; a dynamic match stores, under the key METHOD+path it is looked up with, a copy of the matched route with the parameters of that match (cacheDynamicRoute, copyWithParams); the invariant cacheNN (every entry belongs to a (method,path) the dynamic tables match; key decomposition proved unique by a string lemma) makes 'a route is found' independent of the cache content, for any capacity; the container keeps all other entries' values (C14).",
@@ -25,18 +25,22 @@ CLAIMS = {
    design="6/C07"),
  "C15": dict(
    text="Contract proof of the name index: appendRoute stores a named route under its name and leaves every other name untouched, NamedTo does the same for the trimmed name, GetRoute returns the index entry (so the most recently registered route of a name wins).",
-   note=TRUST + "The build-then-route round trip (BuildURL/ToURL/BuildRequestURL.Build against the run-time regexp) is not decided deductively.",
+   note=TRUST + "The build-then-route round trip (BuildURL/ToURL/BuildRequestURL.Build against the run-time regexp) is not decided deductively: bounded stand-in bounded/urlround (labelled bounded); one known finding (trailing white space of the last value is trimmed by the lookup normalisation).",
    design="6/C15"),
+ "C16": dict(
+   text="Contract proof of the registration callback of Resource for EVERY method set of the controller (reflection modelled as uninterpreted functions of the controller value, so the method set is arbitrary) and every iteration order of the action table (bijection model of map range): a loop invariant over the log of accepted routes (ghost regCount/regAt, appended by appendRoute) proves that each implemented action is registered once under the name <res>_<action> with its own method value as handler, the documented path shape, exactly the methods of its RESTFulActions row and - besides the group middleware - only the handlers Uses() lists for that action, and that nothing else is registered; AddNamed, NewNamedRoute, formatMethods, AddRoute and appendRoute carry the clauses; Resource itself is proved to reject a non-pointer or non-struct controller.",
+   note=TRUST + "Assumed: reflect (rv.* uninterpreted model), the default content of the exported RESTFulActions table and action-name variables (precondition restTable), distinctness of the seven route names (namesOK, a fact about TrimSpace/ToLower/concatenation), and that Group runs the callback in the state Resource prepared (the callback's preconditions are not linked to Group's functype contract). The final paths are terms over the uninterpreted normaliser fp; that GET /res/create is served by create (static tier before dynamic, C01) and the end-to-end table are additionally run by the bounded stand-in bounded/resttable (all 128 method sets x with/without Uses x 2 base paths x 77 probes; labelled bounded).",
+   design="0.7"),
  "C17": dict(
    text="Contract proof of delegation: the handlers registered by StaticDir/StaticFS/StaticFiles/StaticFile are proved to do nothing but pass the request once to the file server bound at registration (StaticFiles after setting the path to the matched file parameter) or to serve the one configured file; no other file API is called (any would be an uncontracted external effect) and no file name is built from the request.",
-   note=TRUST + "Confinement to the root itself is enforced inside net/http (http.Dir, FileServer, ServeFile) and is assumed, as is the extension regexp of StaticFiles.",
+   note=TRUST + "Confinement to the root itself is enforced inside net/http (http.Dir, FileServer, ServeFile) and the extension filter by the regexp of the registered pattern: not decided deductively, bounded stand-in bounded/staticfs (labelled bounded).",
    design="6/C17"),
  "C18": dict(
-   text="Contract proof of the source-selection table of binding.Auto (query for methods without body; otherwise urlencoded form, multipart, JSON, XML by the Content-Type markers, error and no decoder call for any other type, with a proved lemma placing the documented media types in the right rows), that every successful bind went through the validator when one is enabled, that decoder errors are returned unchanged and that no rux code panics.",
+   text="Contract proof of the source-selection table of binding.Auto (query for methods without body; otherwise urlencoded form, multipart, JSON, XML by the Content-Type markers, error and no decoder call for any other type, with a proved lemma placing the documented media types in the right rows), that every successful bind went through the validator when one is enabled, that a decoder error is never swallowed (ghost decodedOK: a nil result implies the codec reported success) and that no rux code panics.",
    note=TRUST + "encoding/json, encoding/xml, formam and gookit/validate are assumed contracts: encode-then-bind equality and decoder robustness on malformed bytes are statements about them and are not decided.",
    design="6/C18"),
  "C19": dict(
-   text="Contract proof on top of the writer contracts: every pkg/render renderer sets its documented Content-Type only if none is present (never overrides), frames the body as documented (JSONP callback(...); XML header) and returns encoder errors; render.Auto serves the FIRST supported Accept type (loop invariant; the empty-case defect for application/xml is fixed); Context.Blob/Text/HTML/JSONBytes/Respond/ShouldRender/JSON/NoContent/HTTPError produce the given status (pending or sent), the documented Content-Type and record/return render failures instead of panicking.",
+   text="Contract proof on top of the writer contracts: every pkg/render renderer sets its documented Content-Type only if none is present (never overrides), frames the body as documented (JSONP callback(...); XML header) and returns encoder errors; render.Auto serves the FIRST supported Accept type (loop invariant; the empty-case defect for application/xml is fixed); Context.Blob/Text/HTML/HTMLString/JSONBytes/Respond/ShouldRender/JSON/XML/JSONP/Stream/Redirect/NoContent/HTTPError produce the given status (pending or sent), the documented Content-Type and record/return render failures instead of panicking.",
    note=TRUST + "Encoders are assumed (they write through the given writer; unencodable values yield errors). 'The body decodes back to the value' is not decided.",
    design="6/C19"),
  "C20": dict(
@@ -126,7 +130,7 @@ def main():
     json.dump(m, open(os.path.join(HERE, "MANIFEST.json"), "w"), indent=1)
     print("claimed:", sorted(CLAIMS), "n/a:", [x["property_id"] for x in na])
 
-NA = {"C16": "Resource is reflection-driven (reflect.Value.MethodByName / Interface type assertions inside a map-range loop inside a Group callback); the contract machinery for call-site clauses keyed by the loop key is not built, so no deductive check is claimed for C16 (see DESIGN.md section 8)"}
+NA = {}
 SOURCE_COMMITS = ["78dc240"]  # regenerated below from git log
 import subprocess
 SOURCE_COMMITS = subprocess.run(["git","-C","/repo","log","--format=%h","--grep=^verif:"],capture_output=True,text=True).stdout.split()
